@@ -100,3 +100,24 @@ PROPS['C09'] = {
     'outside': ['drop accounting on the idx >= N panic path (needs unwinding: engine M)', 'lengths outside the lattice'],
     'assumptions': [],
 }
+
+PROPS['C10'] = {
+    'kani': {
+        'quick': [krun(['c10::q::'], timeout=900, bounds='N in {1,2,3} (and 0), slice length L symbolic in 0..=4N+3, T in {u8,u32,(),(u8,u16)}, shared and mutable; from_chunks/into_chunks on [[T;N];C] with symbolic count')],
+        'thorough': [krun(['c10::'], timeout=2400, bounds='N in {1,2,3,4,5,7,8,16}, L in 0..=4N+3')],
+    },
+    'functions': ['GenericArray::{chunks_from_slice,chunks_from_slice_mut,slice_from_chunks,slice_from_chunks_mut,from_chunks,from_chunks_mut,into_chunks,into_chunks_mut}'],
+    'bounds': 'K: concrete (T,N); L, the witness index and the written value symbolic.',
+    'outside': ['N > 16 in K (M decides the chunk arithmetic for all 64-bit N, L and element sizes)', 'const-evaluator clause: see C18'],
+    'assumptions': ['L <= 4N+3'],
+}
+PROPS['C11'] = {
+    'kani': {
+        'quick': [krun(['c11::q::'], timeout=900, bounds='(N,M) in {(1,1),(2,3),(3,2),(2,2),(4,1)} + degenerate (0,3),(2,0),(0,0); owned, & and &mut; symbolic contents and (i,j)')],
+        'thorough': [krun(['c11::'], timeout=3000, bounds='(N,M) up to (6,6) plus (1,16),(16,1),(4,8)')],
+    },
+    'functions': ['Flatten::flatten (owned, &, &mut)', 'Unflatten::unflatten (owned, &, &mut)', 'const_transmute'],
+    'bounds': 'K: concrete (T,N,M); contents, (i,j) and written values symbolic.',
+    'outside': ['pairs such as (1,1024): type/size level only', 'drop accounting: C03'],
+    'assumptions': [],
+}
